@@ -214,6 +214,10 @@ package domain
 //@   ensures  SpecIterOK(i) && ok == i.valid
 //@   ensures  !ok ==> i.currPtr == old(i.currPtr)
 //@   ensures  ok ==> i.currPtr.Start <= stamp && (forall k int :: i.position < k && k < len(i.idx.mu.pointers) ==> stamp < i.idx.mu.pointers[k].Start)
+//@   # the position is the last domain starting at or before stamp (-1 if none), whether or not it is accepted;
+//@   # it is refused only when it does not overlap the bounds
+//@   ensures  !i.closed ==> -1 <= i.position && i.position < len(i.idx.mu.pointers) && (forall k int :: 0 <= k && k <= i.position ==> i.idx.mu.pointers[k].Start <= stamp) && (forall k int :: i.position < k && k < len(i.idx.mu.pointers) ==> stamp < i.idx.mu.pointers[k].Start)
+//@   ensures  !ok && !i.closed && i.position >= 0 ==> !telem.SpecOvl(i.idx.mu.pointers[i.position].TimeRange, i.Bounds)
 //@   modifies &i.valid, &i.currPtr, &i.position
 //@ func (i *Iterator) SeekGE(ctx context.Context, stamp telem.TimeStamp) (ok bool)
 //@   requires SpecIterWF(i) && stamp >= 0 && (i.closed ==> !i.valid)
@@ -222,6 +226,9 @@ package domain
 //@   ensures  ok ==> stamp < i.currPtr.End && (forall k int :: 0 <= k && k < i.position ==> i.idx.mu.pointers[k].End <= stamp)
 //@   # it fails only if the first domain ending after stamp (if any) lies outside the bounds
 //@   ensures  !ok && !i.closed ==> (forall k int :: 0 <= k && k < len(i.idx.mu.pointers) && stamp < i.idx.mu.pointers[k].End && (forall m int :: 0 <= m && m < k ==> i.idx.mu.pointers[m].End <= stamp) ==> !telem.SpecOvl(i.idx.mu.pointers[k].TimeRange, i.Bounds))
+//@   # the position is the first domain ending after stamp (len if none), whether or not it is accepted
+//@   ensures  !i.closed ==> 0 <= i.position && i.position <= len(i.idx.mu.pointers) && (forall k int :: 0 <= k && k < i.position ==> i.idx.mu.pointers[k].End <= stamp) && (i.position < len(i.idx.mu.pointers) ==> stamp < i.idx.mu.pointers[i.position].End)
+//@   ensures  !ok && !i.closed && i.position < len(i.idx.mu.pointers) ==> !telem.SpecOvl(i.idx.mu.pointers[i.position].TimeRange, i.Bounds)
 //@   modifies &i.valid, &i.currPtr, &i.position
 
 //@ # OpenIterator: the index it iterates satisfies the representation invariant WF (proved for
@@ -236,6 +243,14 @@ package domain
 //@ spec func SpecDBSum(db *DB, a int, b int, d int64) int64 = specSumCounts(db.idx.mu.pointers, a, b, d)
 //@ trusted func (db *DB) OpenIterator(cfg IteratorConfig) (i *Iterator)
 //@   ensures i != nil && __fresh(i) && i.idx != nil && i.idx == db.idx && WF(i.idx.mu.pointers) && i.Bounds == cfg.Bounds && !i.valid && !i.closed
+//@   modifies nothing
+//@ # HasDataFor (the guard behind the refusal of index-channel deletes, C04): true exactly when some
+//@ # domain overlaps the range
+//@ inline func IterRange(tr telem.TimeRange) IteratorConfig
+//@ func (db *DB) HasDataFor(ctx context.Context, tr telem.TimeRange) (has bool, err error)
+//@   pragma typed_heap
+//@   requires db.idx != nil && WF(db.idx.mu.pointers) && validTR(tr)
+//@   ensures  err == nil ==> has == (exists k int :: 0 <= k && k < len(db.idx.mu.pointers) && telem.SpecOvl(db.idx.mu.pointers[k].TimeRange, tr))
 //@   modifies nothing
 //@ func (i *Iterator) SeekFirst(ctx context.Context) (ok bool)
 //@   requires SpecIterWF(i) && i.Bounds.Start >= 0 && (i.closed ==> !i.valid)
